@@ -3,7 +3,7 @@ import datetime
 import calendar
 
 import operator
-from math import copysign
+from math import copysign, isinf, isnan
 
 from six import integer_types
 from warnings import warn
@@ -168,6 +168,13 @@ class relativedelta(object):
             self.seconds = delta.seconds + delta.days * 86400
             self.microseconds = delta.microseconds
         else:
+            # Non-finite values can neither be normalized nor applied to a date
+            if any(isinstance(x, float) and (isinf(x) or isnan(x))
+                   for x in (years, months, days, leapdays, weeks,
+                             hours, minutes, seconds, microseconds)):
+                raise ValueError("Non-finite relative values (inf, nan) are "
+                                 "not supported.")
+
             # Check for non-integer values in integer-only quantities
             if any(x is not None and x != int(x) for x in (years, months)):
                 raise ValueError("Non-integer years and months are "
